@@ -10,13 +10,15 @@
 //!
 //! Search oracle = the property text evaluated on the real API (see `oracle_*`).
 use harper_core::linting::{Lint as CLint, LintGroup, LintGroupConfig, LintKind, Linter as _, Suggestion as CSug};
-use harper_core::parsers::{Markdown, Parser, PlainEnglish};
-use harper_core::{Dictionary, Document, FstDictionary, IgnoredLints, Lrc, MergedDictionary, MutableDictionary, Span, WordId, WordMetadata};
+use harper_core::language_detection::is_doc_likely_english;
+use harper_core::parsers::{IsolateEnglish, Markdown, Parser, PlainEnglish};
+use harper_core::{Dictionary, Document, FstDictionary, IgnoredLints, Lrc, MergedDictionary, MutableDictionary, Punctuation, Span, TokenKind, WordId, WordMetadata};
 use harper_wasm::{Dialect as WD, Language, Lint as WLint, Linter as WL, Span as WSpan, Suggestion as WSug};
 use hv::common::*;
 use hv::gen;
 use serde_json::{json, Value};
 use std::collections::{BTreeMap, BTreeSet, HashMap};
+use std::hash::{DefaultHasher, Hash, Hasher};
 use std::sync::Arc;
 
 // ---------------------------------------------------------------------------------------------
@@ -328,6 +330,13 @@ enum Op {
     GetConfig,
     Stats,
     Dialect,
+    /// the exports next to the state machine (Model/C16Api.v)
+    TitleCase { text: String },
+    LikelyEnglish { text: String },
+    IsolateEnglish { text: String },
+    DefaultConfig,
+    /// import_stats_file of this linter's own generate_stats_file (bad: with a broken last line)
+    ImportStats { bad: bool },
 }
 fn op_json(o: &Op) -> Value {
     match o {
@@ -346,6 +355,11 @@ fn op_json(o: &Op) -> Value {
         Op::GetConfig => json!({"op": "get_config"}),
         Op::Stats => json!({"op": "stats"}),
         Op::Dialect => json!({"op": "dialect"}),
+        Op::TitleCase { text } => json!({"op": "title_case", "text": text}),
+        Op::LikelyEnglish { text } => json!({"op": "likely_english", "text": text}),
+        Op::IsolateEnglish { text } => json!({"op": "isolate_english", "text": text}),
+        Op::DefaultConfig => json!({"op": "default_config"}),
+        Op::ImportStats { bad } => json!({"op": "import_stats", "bad": bad}),
     }
 }
 fn op_of(v: &Value) -> Option<Op> {
@@ -368,6 +382,11 @@ fn op_of(v: &Value) -> Option<Op> {
         "get_config" => Op::GetConfig,
         "stats" => Op::Stats,
         "dialect" => Op::Dialect,
+        "title_case" => Op::TitleCase { text: s("text") },
+        "likely_english" => Op::LikelyEnglish { text: s("text") },
+        "isolate_english" => Op::IsolateEnglish { text: s("text") },
+        "default_config" => Op::DefaultConfig,
+        "import_stats" => Op::ImportStats { bad: v["bad"].as_bool().unwrap_or(false) },
         _ => return None,
     })
 }
@@ -482,6 +501,12 @@ impl<'a> Hist<'a> {
                 self.rep.monitor("ctx_ignores_dict:VIOLATED", 1);
                 self.fail("context_depends_on_dictionary", format!("the ignore-context hash of lint {b} on {:?} ({}) differs between the document parsed with the user's words {:?} and without them: adding a word to the dictionary can bring an ignored lint back", text, if md { "Markdown" } else { "Plain" }, dict_words(&self.mirror.user)));
             }
+        }
+        if self.mirror.user.word_count() > 0 && !alts[0].raw.is_empty() {
+            // the same lints through the Document model of Model/C16Ctx.v: with the user's words and without
+            let dicts = vec![dict_words(&self.mirror.synced), vec![]];
+            let items: Vec<(CLint, usize)> = alts[0].raw.iter().take(12).flat_map(|(l, _)| [(l.clone(), 0usize), (l.clone(), 1usize)]).collect();
+            dc_case(self.rep, text, md, &dicts, &items, "history");
         }
         let api = &mut self.api;
         let r = guarded(|| api.lint(text.to_string(), lang_of(md)));
@@ -903,6 +928,116 @@ impl<'a> Hist<'a> {
                 self.rep.case("GC", &s);
             }
             Op::Stats => self.do_stats(true),
+            Op::TitleCase { text } => {
+                // to_title_case = make_title_case_str(text, PlainEnglish, curated dictionary): the mirror computes
+                // the composition on harper_core, the model passes it through xstep, the API must agree
+                let t = text.clone();
+                let Ok(mine) = guarded(|| harper_core::make_title_case_str(&t, &PlainEnglish, &FstDictionary::curated())) else {
+                    self.rep.count("api:title_case:core_panicked(skipped)");
+                    return;
+                };
+                let t = text.clone();
+                let got = guarded(|| harper_wasm::to_title_case(t));
+                self.rep.case(&format!("TT {} | {}", cps(&chars(text)), cps(&chars(&mine))), &match &got { Ok(g) => format!("T {}", cps(&chars(g))).trim().to_string(), Err(_) => "P".into() });
+                self.rep.count("api:title_case");
+                if got.as_ref().ok() != Some(&mine) {
+                    self.fail("title_case_composition", format!("to_title_case({:?}) = {:?}, make_title_case_str with PlainEnglish and the curated dictionary = {:?}", text, got, mine));
+                }
+            }
+            Op::LikelyEnglish { text } | Op::IsolateEnglish { text } => {
+                let isolate = matches!(op, Op::IsolateEnglish { .. });
+                let mut cands: Vec<(Vec<String>, Arc<MergedDictionary>)> = vec![(dict_words(&self.mirror.synced), self.mirror.dict_a.clone())];
+                if dict_words(&self.mirror.synced) != dict_words(&self.mirror.user) {
+                    cands.push((dict_words(&self.mirror.user), merged(&self.mirror.user)));
+                }
+                let mut enc = cands.len().to_string();
+                for (ws, d) in &cands {
+                    let (t, d2) = (text.clone(), d.clone());
+                    let r = guarded(move || {
+                        if isolate {
+                            Document::new(&t, &IsolateEnglish::new(Box::new(PlainEnglish), d2.clone()), &d2).to_string()
+                        } else {
+                            (is_doc_likely_english(&Document::new_plain_english(&t, &d2), &d2) as u8).to_string()
+                        }
+                    });
+                    let Ok(v) = r else {
+                        self.rep.count("api:english:core_panicked(skipped)");
+                        return;
+                    };
+                    enc.push_str(&format!(" {}", ws.len()));
+                    for w in ws {
+                        enc.push_str(&format!(" {}", enc_str(w)));
+                    }
+                    enc.push_str(&format!(" {}", if isolate { enc_str(&v) } else { v }));
+                }
+                let t = text.clone();
+                let api = &self.api;
+                let got = guarded(|| if isolate { api.isolate_english(t) } else { (api.is_likely_english(t) as u8).to_string() });
+                let impl_line = match &got {
+                    Ok(g) if isolate => format!("T {}", cps(&chars(g))).trim().to_string(),
+                    Ok(g) => format!("b {g}"),
+                    Err(_) => "P".into(),
+                };
+                self.rep.case(&format!("{} {} | {}", if isolate { "IE" } else { "LE" }, cps(&chars(text)), enc), &impl_line);
+                self.rep.count(if isolate { "api:isolate_english" } else { "api:is_likely_english" });
+            }
+            Op::DefaultConfig => {
+                let c = harper_wasm::get_default_lint_config_as_json();
+                let s = self.keys.cfgstring(&c);
+                self.rep.case("DCFG", &s);
+                self.rep.count("api:default_config");
+                // on the real API: handing the default configuration to a NEW linter changes no answer (C16_default_config)
+                if let Some(l) = &self.last {
+                    let (t, md) = (l.text.clone(), l.md);
+                    let d = wd_of(self.dialect);
+                    let r = guarded(|| {
+                        let mut a = WL::new(d);
+                        let mut b = WL::new(d);
+                        let _ = b.set_lint_config_from_json(harper_wasm::get_default_lint_config_as_json());
+                        let ja: Vec<String> = a.lint(t.clone(), lang_of(md)).iter().map(|x| x.to_json()).collect();
+                        let jb: Vec<String> = b.lint(t.clone(), lang_of(md)).iter().map(|x| x.to_json()).collect();
+                        (ja, jb)
+                    });
+                    if let Ok((ja, jb)) = r {
+                        if ja != jb {
+                            self.fail("default_config_not_default", format!("a new linter and a new linter given get_default_lint_config_as_json lint {:?} differently: {} vs {} lints", l.text, ja.len(), jb.len()));
+                        }
+                    }
+                }
+            }
+            Op::ImportStats { bad } => {
+                let file = self.api.generate_stats_file();
+                let n = file.lines().count();
+                let mut kinds = vec![];
+                for line in file.lines() {
+                    let v: Value = serde_json::from_str(line).unwrap_or(Value::Null);
+                    let name = v["kind"]["Lint"]["kind"].as_str().unwrap_or("?").to_string();
+                    kinds.push(KIND_NAMES.iter().position(|x| *x == name).unwrap_or(99).to_string());
+                }
+                let mut given = file.clone();
+                if *bad {
+                    given.push_str("{\"kind\":{\"Lint\":\n");
+                }
+                let r = self.api.import_stats_file(given);
+                let case = if *bad { "IS !".to_string() } else { format!("IS {}", kinds.join(" ")).trim().to_string() };
+                self.rep.case(&case, if r.is_ok() { "ok" } else { "err" });
+                self.rep.count(if *bad { "api:import_stats:bad" } else { "api:import_stats" });
+                self.rep.monitor("stats_serde_contract:records_checked", n as u64);
+                if r.is_ok() == *bad {
+                    self.fail("stats_file_roundtrip", format!("import_stats_file {} a file that is {}", if r.is_ok() { "accepted" } else { "refused" }, if *bad { "broken in its last line" } else { "this linter's own generate_stats_file" }));
+                }
+                if r.is_ok() {
+                    self.stats_expected += n;
+                    // monitor of the serde contract (premise of C16_stats_file_roundtrip): the imported records are
+                    // written again exactly as they were read
+                    let again = self.api.generate_stats_file();
+                    if again != format!("{file}{file}") {
+                        self.rep.monitor("stats_serde_contract:VIOLATED", 1);
+                        self.fail("stats_file_roundtrip", format!("after importing its own {n}-record statistics file the linter does not write the records twice: {} bytes vs 2 x {}", again.len(), file.len()));
+                    }
+                }
+                self.do_stats(false);
+            }
             Op::Dialect => {
                 let d = wd_index(self.api.get_dialect());
                 self.rep.case("D", &d.to_string());
@@ -1114,6 +1249,178 @@ fn random_core_lint(r: &mut Rng) -> CLint {
         message: random_string(r, 8),
         priority: *r.pick(&[0u8, 1, 9, 10, 31, 63, 99, 100, 127, 255]),
     }
+}
+
+
+// ---------------------------------------------------------------------------------------------
+// DC: the Document model behind the ignore context (Model/C16Ctx.v) against harper_core
+// ---------------------------------------------------------------------------------------------
+/// 62-bit code of a hashed field (OCaml ints are 63-bit)
+fn code62<T: Hash>(t: &T) -> u64 {
+    let mut h = DefaultHasher::new();
+    t.hash(&mut h);
+    h.finish() & 0x3FFF_FFFF_FFFF_FFFF
+}
+fn opt_code(c: Option<u64>) -> String {
+    c.map(|c| c.to_string()).unwrap_or("-1".into())
+}
+/// integer encoding of a TokenKind with every hashed field (the shape of Model/Ignore.v `tkind`)
+fn kind_ints(k: &TokenKind) -> String {
+    match k {
+        TokenKind::Word(m) => format!("0 {}", opt_code(m.as_ref().map(code62))),
+        TokenKind::Punctuation(Punctuation::Quote(q)) => format!("2 {}", q.twin_loc.map(|n| n as i64).unwrap_or(-1)),
+        TokenKind::Punctuation(p) => format!("1 {}", code62(p)),
+        TokenKind::Decade => "3".into(),
+        TokenKind::Number(n) => format!("4 {} {} {} {}", code62(&n.value), opt_code(n.suffix.map(|s| code62(&s))), n.radix, n.precision),
+        TokenKind::Space(n) => format!("5 {n}"),
+        TokenKind::Newline(n) => format!("6 {n}"),
+        TokenKind::EmailAddress => "7".into(),
+        TokenKind::Url => "8".into(),
+        TokenKind::Hostname => "9".into(),
+        TokenKind::Unlintable => "10".into(),
+        TokenKind::ParagraphBreak => "11".into(),
+        TokenKind::Regexish => "12".into(),
+    }
+}
+fn doc_dump(doc: &Document) -> String {
+    doc.get_tokens().iter().map(|t| format!("{} {} {}", t.span.start, t.span.end, kind_ints(&t.kind))).collect::<Vec<_>>().join(",")
+}
+fn user_dict(words: &[String]) -> MutableDictionary {
+    let mut d = MutableDictionary::new();
+    d.extend_words(words.iter().map(|w| (w.chars().collect::<Vec<char>>(), WordMetadata::default())));
+    d
+}
+/// One DC case: the model gets the tokens of the text parsed WITHOUT any dictionary (Model/C16Ctx.v
+/// `pre_tokens`), per user dictionary the answer of `Dictionary::get_word_metadata` for every word of the text
+/// (`word_meta`, asked of the dictionary itself, not read off a document), and (lint, dictionary) items.  It must
+/// predict (a) the tokens of the real Document under each dictionary, (b) which items share an ignore context
+/// (the implementation side: equality of the u64 hashes the real IgnoredLints stores).
+/// Oracle: an item pair that differs in the dictionary only must share its hash.
+fn dc_case(rep: &mut Report, text: &str, md: bool, dicts: &[Vec<String>], items: &[(CLint, usize)], origin: &str) {
+    if items.is_empty() || dicts.is_empty() {
+        return;
+    }
+    let r = guarded(|| {
+        let source: Vec<char> = text.chars().collect();
+        let parser: Box<dyn Parser> = if md { Box::new(Markdown::default()) } else { Box::new(PlainEnglish) };
+        let pre = Document::new_from_vec(Lrc::new(source.clone()), &parser, &MutableDictionary::new());
+        let mut words: BTreeSet<Vec<char>> = BTreeSet::new();
+        for t in pre.get_tokens() {
+            if matches!(t.kind, TokenKind::Word(_)) && t.span.start <= t.span.end && t.span.end <= source.len() {
+                words.insert(source[t.span.start..t.span.end].to_vec());
+            }
+        }
+        let mut dict_enc = dicts.len().to_string();
+        let mut dumps = vec![];
+        let mut docs = vec![];
+        for ws in dicts {
+            let m = merged(&user_dict(ws));
+            dict_enc.push_str(&format!(" {}", ws.len()));
+            for w in ws {
+                dict_enc.push_str(&format!(" {}", enc_str(w)));
+            }
+            dict_enc.push_str(&format!(" {}", words.len()));
+            for w in &words {
+                dict_enc.push_str(&format!(" {} {}", enc_text(w), opt_code(m.get_word_metadata(w).map(code62))));
+            }
+            let doc = make_doc(text, md, &m);
+            dumps.push(doc_dump(&doc));
+            docs.push(doc);
+        }
+        let hashes: Vec<u64> = items.iter().map(|(l, di)| ctx_hash(l, &docs[*di])).collect();
+        (doc_dump(&pre), pre.get_tokens().len(), dict_enc, dumps, hashes)
+    });
+    let Ok((pre, ntok, dict_enc, dumps, hashes)) = r else {
+        rep.count("dc:document_or_context_panicked(skipped)");
+        return;
+    };
+    let classes: Vec<String> = hashes.iter().enumerate().map(|(i, h)| hashes.iter().position(|x| x == h).unwrap_or(i).to_string()).collect();
+    let mut item_enc = items.len().to_string();
+    for (l, di) in items {
+        item_enc.push_str(&format!(" {} {}", enc_rlint(l), di));
+    }
+    let case = format!("DC {} | {} | {} {} | {} | {}", md as u8, enc_str(text), ntok, pre.replace(',', " "), dict_enc, item_enc);
+    rep.case(&case, &format!("{} # {}", dumps.join(" ; "), classes.join(" ")));
+    rep.eval();
+    rep.count(&format!("dc:{origin}:dicts={}:items={}", dicts.len(), bucket(items.len())));
+    if dumps.iter().any(|d| *d != dumps[0]) {
+        rep.count("dc:documents_differ_between_dictionaries");
+        rep.nontrivial(&(text.to_string(), md, "dc"));
+    }
+    // the property on the real code: the same lint on the same text under two dictionaries has one context
+    for (i, (l, di)) in items.iter().enumerate() {
+        for (j, (l2, dj)) in items.iter().enumerate().skip(i + 1) {
+            if di != dj && l == l2 {
+                rep.monitor("ctx_same_under_dictionaries:checked", 1);
+                if hashes[i] != hashes[j] {
+                    rep.monitor("ctx_same_under_dictionaries:VIOLATED", 1);
+                    rep.fail(
+                        "context_depends_on_dictionary",
+                        format!("the ignore-context hash of lint {:?} at [{},{}) on {:?} ({}) differs between user dictionaries {:?} and {:?}: adding a word to the dictionary can bring an ignored lint back", l.message, l.span.start, l.span.end, text, if md { "Markdown" } else { "Plain" }, dicts[*di], dicts[*dj]),
+                        json!({"kind": "dc", "text": text, "md": md, "dicts": dicts, "items": items.iter().map(|(l, d)| json!({"lint": l, "dict": d})).collect::<Vec<_>>()}),
+                    );
+                    return;
+                }
+            }
+        }
+    }
+}
+/// random DC case: a text with user words, two or three user dictionaries (one empty), the lints the curated
+/// rules report under each, plus synthetic lints on random spans (near words whose metadata differs)
+fn gen_dc(rep: &mut Report, r: &mut Rng) {
+    let mut text = gen_text(r);
+    if r.chance(1, 2) {
+        let w = r.s(USER_WORDS);
+        let w2 = r.s(USER_WORDS);
+        text = match r.below(3) {
+            0 => format!("{w} {text}"),
+            1 => format!("{text} {w2} an {w}."),
+            _ => format!("I {w} a apple, \"{w2}\" teh {w}. {text}"),
+        };
+    }
+    let md = r.chance(1, 3);
+    let n = r.range(1, 4);
+    let mut a: Vec<String> = (0..n).map(|_| r.s(USER_WORDS).to_string()).collect();
+    // sometimes a word of the text itself (known or unknown to the curated dictionary)
+    let toks: Vec<&str> = text.split(|c: char| !c.is_alphanumeric()).filter(|w| !w.is_empty()).collect();
+    if !toks.is_empty() && r.chance(1, 2) {
+        a.push(r.pick(&toks).to_string());
+    }
+    a.sort();
+    a.dedup();
+    let mut dicts: Vec<Vec<String>> = vec![a.clone(), vec![]];
+    if r.chance(1, 2) {
+        dicts.push(a.iter().take(1).cloned().collect());
+    }
+    let mut items: Vec<(CLint, usize)> = vec![];
+    let dialect = wd_of(r.below(4)).into();
+    for (di, ws) in dicts.iter().enumerate().take(2) {
+        let m = merged(&user_dict(ws));
+        if let Ok(ls) = guarded(|| LintGroup::new_curated(m.clone(), dialect).lint(&make_doc(&text, md, &m))) {
+            for l in ls.into_iter().take(6) {
+                for dj in 0..dicts.len() {
+                    if dj == di || r.chance(1, 2) {
+                        items.push((l.clone(), dj));
+                    }
+                }
+            }
+        }
+    }
+    let len = text.chars().count();
+    for _ in 0..r.range(1, 4) {
+        let mut l = random_core_lint(r);
+        let s = r.below(len + 2);
+        l.span = Span { start: s, end: s + r.below(6) };
+        if r.chance(1, 2) {
+            l.message = "m".into();
+            l.suggestions.clear();
+        }
+        for dj in 0..dicts.len() {
+            items.push((l.clone(), dj));
+        }
+    }
+    items.truncate(40);
+    dc_case(rep, &text, md, &dicts, &items, "random");
 }
 
 // ---------------------------------------------------------------------------------------------
@@ -1348,7 +1655,7 @@ fn gen_history(r: &mut Rng, keys: &Keys) -> (usize, Vec<Op>) {
     let (t0, m0) = texts[0].clone();
     ops.push(Op::Lint { text: t0, md: m0 });
     for _ in 0..n {
-        let k = r.below(100);
+        let k = if r.chance(1, 9) { 99 } else { r.below(100) };
         let op = if k < 26 {
             let (t, md) = r.pick(&texts).clone();
             let md = if r.chance(1, 8) { !md } else { md };
@@ -1391,8 +1698,16 @@ fn gen_history(r: &mut Rng, keys: &Keys) -> (usize, Vec<Op>) {
             Op::GetConfig
         } else if k < 98 {
             Op::Stats
-        } else {
+        } else if r.chance(1, 10) {
             Op::Dialect
+        } else {
+            match r.below(6) {
+                0 => Op::TitleCase { text: if r.chance(1, 3) { gen::malformed(r, 20) } else { gen::sentence(r) } },
+                1 => Op::LikelyEnglish { text: if r.chance(1, 3) { format!("{} {} {}", r.s(USER_WORDS), r.s(USER_WORDS), r.s(USER_WORDS)) } else { gen_text(r) } },
+                2 => Op::IsolateEnglish { text: format!("{} Der schnelle braune Fuchs springt. {} {}", gen::sentence(r), r.s(USER_WORDS), gen::clean_sentence(r)) },
+                3 => Op::DefaultConfig,
+                _ => Op::ImportStats { bad: r.chance(1, 4) },
+            }
         };
         ops.push(op);
     }
@@ -1404,6 +1719,11 @@ fn replay_input(rep: &mut Report, keys: &Keys, intern: &mut Intern, v: &Value) {
         Some("history") => {
             let ops: Vec<Op> = v["ops"].as_array().map(|a| a.iter().filter_map(op_of).collect()).unwrap_or_default();
             run_history(rep, keys, intern, v["dialect"].as_u64().unwrap_or(0) as usize, &ops, v["origin"].as_str().unwrap_or("replay"), true);
+        }
+        Some("dc") => {
+            let dicts: Vec<Vec<String>> = serde_json::from_value(v["dicts"].clone()).unwrap_or_default();
+            let items: Vec<(CLint, usize)> = v["items"].as_array().map(|a| a.iter().filter_map(|it| Some((serde_json::from_value::<CLint>(it["lint"].clone()).ok()?, it["dict"].as_u64()? as usize))).filter(|(_, d)| *d < dicts.len()).collect()).unwrap_or_default();
+            dc_case(rep, v["text"].as_str().unwrap_or(""), v["md"].as_bool().unwrap_or(false), &dicts, &items, "replay");
         }
         Some("json") => {
             if let Ok(inner) = serde_json::from_value::<CLint>(v["lint"].clone()) {
@@ -1417,11 +1737,27 @@ fn replay_input(rep: &mut Report, keys: &Keys, intern: &mut Intern, v: &Value) {
 fn main() {
     let (args, corpus) = hv::cli();
     let mut rep = Report::new(&args.out);
-    rep.rule = "call histories on harper_wasm::Linter (4-14 calls after a first lint; lint / apply_suggestion (own, drifted text, synthetic out-of-range lints) / ignore_lint / export, clear, import of the ignore list (also truncated JSON) / import_words (new, re-cased, repeated) / export_words / second-linter round trip / set_lint_config_from_json (valid, null values, unknown rules, all on, all off, malformed) / get config / statistics / dialect), both languages, all four dialects, texts: dense trigger sentences, Markdown constructs, user-word sentences, generated documents, malformed stream; plus synthetic Lint/Span/Suggestion/ignore-list values for the JSON printers and parsers (escapes, astral characters, spans with start > end, every kind). non-trivial = distinct (text, language, returned lints) with >= 1 lint, or JSON values needing escapes".into();
+    rep.rule = "call histories on harper_wasm::Linter (4-14 calls after a first lint; lint / apply_suggestion (own, drifted text, synthetic out-of-range lints) / ignore_lint / export, clear, import of the ignore list (also truncated JSON) / import_words (new, re-cased, repeated) / export_words / second-linter round trip / set_lint_config_from_json (valid, null values, unknown rules, all on, all off, malformed) / get config / statistics / dialect / to_title_case / is_likely_english / isolate_english / get_default_lint_config_as_json / import_stats_file of the own statistics file, whole and broken), both languages, all four dialects, texts: dense trigger sentences, Markdown constructs, user-word sentences, generated documents, malformed stream; plus DC cases (a text, 2-3 user dictionaries, real and synthetic lints: the Document and the ignore context under each dictionary); plus synthetic Lint/Span/Suggestion/ignore-list values for the JSON printers and parsers (escapes, astral characters, spans with start > end, every kind). non-trivial = distinct (text, language, returned lints) with >= 1 lint, or JSON values needing escapes".into();
     let keys = Keys::new();
     let mut intern = Intern::default();
     rep.case(&format!("K {}", keys.curated), "ok");
     rep.extra.insert("config_keys".into(), json!(keys.names.len()));
+    // the exports of harper-wasm that are NOT in the model, with the reason (the names are pinned against the
+    // export list generated from harper-wasm/src/lib.rs by theorem C16_api_coverage; everything else is modelled
+    // or a projection of a modelled value, see coq/Proofs/C16Surface.v api_classification)
+    let js = "takes or returns a JsValue: aborts outside a JavaScript host, cannot be run natively; its _json twin is modelled";
+    rep.extra.insert(
+        "wasm_exports_outside_the_model".into(),
+        json!({
+            "setup": "installs the panic hook and the tracing subscriber of the JavaScript console; no linter state",
+            "Linter::get_lint_descriptions_as_json": "a constant of the rule set (rule name -> description); reads no linter state, no clause of C16 mentions it",
+            "Linter::summarize_stats": js,
+            "Linter::get_lint_descriptions_as_object": js,
+            "Linter::get_lint_config_as_object": js,
+            "Linter::set_lint_config_from_object": js,
+            "get_default_lint_config": js,
+        }),
+    );
     for c in &corpus {
         replay_input(&mut rep, &keys, &mut intern, c);
     }
@@ -1433,6 +1769,9 @@ fn main() {
     for i in 0..args.scale(260, 4000) {
         let (d, ops) = gen_history(&mut r, &keys);
         run_history(&mut rep, &keys, &mut intern, d, &ops, "random", i % 3 == 0);
+    }
+    for _ in 0..args.scale(500, 12000) {
+        gen_dc(&mut rep, &mut r);
     }
     for _ in 0..args.scale(600, 20000) {
         let l = random_core_lint(&mut r);
